@@ -6,6 +6,15 @@
 // RLock/RUnlock pair), or be bracketed by Lock ... Unlock with no return, go
 // statement or channel operation in between.  methods == ["*"] means every
 // exported method of the receiver declared in that file, minus "except".
+//
+// Two harmless shapes are accepted besides the literal ones (a rule that is a
+// superset of the strict rule, so nothing that passed before fails now):
+//   - a preamble before the Lock that does not use the receiver at all, or reads
+//     only fields of a basic type (int64, string, bool ...) that no method of the
+//     type ever assigns (configuration fixed at construction);
+//   - after such a preamble, a body that is one call of another method of the same
+//     receiver (return x.helper(...) / x.helper(...)), when that helper satisfies
+//     the rule itself (up to three levels).
 // stdout: {"checked": n, "failures": [...]}.
 package main
 
@@ -16,6 +25,7 @@ import (
 	"go/parser"
 	"go/token"
 	"os"
+	"path/filepath"
 	"strings"
 )
 
@@ -82,14 +92,218 @@ func exprString(e ast.Expr) string {
 	return "?"
 }
 
-func check(fd *ast.FuncDecl, recv string, r rule) string {
+
+// tctx is what the relaxed shapes need to know about the receiver type: its methods (over the whole
+// package directory, test and verif-tagged files excluded), the fields some method assigns, and the
+// fields declared with a basic type.
+type tctx struct {
+	methods  map[string]*ast.FuncDecl
+	assigned map[string]bool
+	basic    map[string]bool
+}
+
+var basicTypes = map[string]bool{"bool": true, "string": true, "int": true, "int8": true, "int16": true, "int32": true, "int64": true,
+	"uint": true, "uint8": true, "uint16": true, "uint32": true, "uint64": true, "uintptr": true, "byte": true, "rune": true,
+	"float32": true, "float64": true}
+
+// rootField returns f when e is  recv.f , recv.f[...] , recv.f.g ...  (the field of the receiver an lvalue is rooted at)
+func rootField(e ast.Expr, recv string) string {
+	for {
+		switch x := e.(type) {
+		case *ast.SelectorExpr:
+			if id, ok := x.X.(*ast.Ident); ok && id.Name == recv {
+				return x.Sel.Name
+			}
+			e = x.X
+		case *ast.IndexExpr:
+			e = x.X
+		case *ast.StarExpr:
+			e = x.X
+		case *ast.ParenExpr:
+			e = x.X
+		default:
+			return ""
+		}
+	}
+}
+
+func buildCtx(dir string, typ string) *tctx {
+	c := &tctx{methods: map[string]*ast.FuncDecl{}, assigned: map[string]bool{}, basic: map[string]bool{}}
+	fset := token.NewFileSet()
+	pkgs, err := parser.ParseDir(fset, dir, func(fi os.FileInfo) bool {
+		return !strings.HasSuffix(fi.Name(), "_test.go") && !strings.HasSuffix(fi.Name(), "_verif.go")
+	}, 0)
+	if err != nil {
+		return c
+	}
+	for _, pk := range pkgs {
+		for _, f := range pk.Files {
+			for _, d := range f.Decls {
+				switch x := d.(type) {
+				case *ast.GenDecl:
+					for _, sp := range x.Specs {
+						ts, ok := sp.(*ast.TypeSpec)
+						if !ok || ts.Name.Name != typ {
+							continue
+						}
+						st, ok := ts.Type.(*ast.StructType)
+						if !ok {
+							continue
+						}
+						for _, fl := range st.Fields.List {
+							if id, ok := fl.Type.(*ast.Ident); ok && basicTypes[id.Name] {
+								for _, n := range fl.Names {
+									c.basic[n.Name] = true
+								}
+							}
+						}
+					}
+				case *ast.FuncDecl:
+					t, rn := recvName(x)
+					if t != typ || x.Body == nil {
+						continue
+					}
+					c.methods[x.Name.Name] = x
+					if rn == "" {
+						continue
+					}
+					mark := func(e ast.Expr) {
+						if f := rootField(e, rn); f != "" {
+							c.assigned[f] = true
+						}
+					}
+					ast.Inspect(x.Body, func(n ast.Node) bool {
+						switch y := n.(type) {
+						case *ast.AssignStmt:
+							for _, l := range y.Lhs {
+								mark(l)
+							}
+						case *ast.IncDecStmt:
+							mark(y.X)
+						case *ast.RangeStmt:
+							if y.Key != nil {
+								mark(y.Key)
+							}
+							if y.Value != nil {
+								mark(y.Value)
+							}
+						case *ast.UnaryExpr:
+							if y.Op == token.AND {
+								mark(y.X)
+							}
+						}
+						return true
+					})
+				}
+			}
+		}
+	}
+	return c
+}
+
+// harmless reports whether a node uses the receiver only by reading never-assigned fields of a basic type
+func harmless(n ast.Node, recv string, c *tctx) bool {
+	ok := true
+	ast.Inspect(n, func(m ast.Node) bool {
+		switch x := m.(type) {
+		case *ast.SelectorExpr:
+			if id, isID := x.X.(*ast.Ident); isID && id.Name == recv {
+				if c == nil || !c.basic[x.Sel.Name] || c.assigned[x.Sel.Name] {
+					ok = false
+				}
+				return false
+			}
+		case *ast.Ident:
+			if x.Name == recv {
+				ok = false
+			}
+		}
+		return ok
+	})
+	return ok
+}
+
+func isLockStmt(st ast.Stmt, recv string, lock string) bool {
+	es, ok := st.(*ast.ExprStmt)
+	return ok && (isCall(es.X, recv, lock, "Lock") || isCall(es.X, recv, lock, "RLock"))
+}
+
+// delegate returns the helper method when the statements are exactly one call of a method of the receiver
+// (possibly as the operand of a return, possibly followed by a bare return) with harmless arguments
+func delegate(stmts []ast.Stmt, recv string, c *tctx) *ast.FuncDecl {
+	if c == nil || len(stmts) == 0 || len(stmts) > 2 {
+		return nil
+	}
+	if len(stmts) == 2 {
+		r, ok := stmts[1].(*ast.ReturnStmt)
+		if !ok || len(r.Results) != 0 {
+			return nil
+		}
+	}
+	var call *ast.CallExpr
+	switch x := stmts[0].(type) {
+	case *ast.ExprStmt:
+		call, _ = x.X.(*ast.CallExpr)
+	case *ast.ReturnStmt:
+		if len(x.Results) == 1 {
+			call, _ = x.Results[0].(*ast.CallExpr)
+		}
+	}
+	if call == nil {
+		return nil
+	}
+	sel, ok := call.Fun.(*ast.SelectorExpr)
+	if !ok {
+		return nil
+	}
+	if id, isID := sel.X.(*ast.Ident); !isID || id.Name != recv {
+		return nil
+	}
+	for _, a := range call.Args {
+		if !harmless(a, recv, c) {
+			return nil
+		}
+	}
+	return c.methods[sel.Sel.Name]
+}
+
+func check(fd *ast.FuncDecl, recv string, r rule, c *tctx) string {
+	return checkDepth(fd, recv, r, c, 0)
+}
+
+func checkDepth(fd *ast.FuncDecl, recv string, r rule, c *tctx, depth int) string {
 	if fd.Body == nil || len(fd.Body.List) == 0 {
 		return "empty body"
 	}
 	if r.Mode == "handoff" {
+		return checkStrict(fd.Body.List, recv, r)
+	}
+	stmts := fd.Body.List
+	i := 0
+	for i < len(stmts) && !isLockStmt(stmts[i], recv, r.Lock) && harmless(stmts[i], recv, c) {
+		i++
+	}
+	rest := stmts[i:]
+	if len(rest) == 0 {
+		return "" // never touches mutable state of the receiver
+	}
+	if depth < 3 {
+		if h := delegate(rest, recv, c); h != nil {
+			_, hn := recvName(h)
+			if msg := checkDepth(h, hn, r, c, depth+1); msg != "" {
+				return "delegates to " + h.Name.Name + ": " + msg
+			}
+			return ""
+		}
+	}
+	return checkStrict(rest, recv, r)
+}
+
+func checkStrict(list []ast.Stmt, recv string, r rule) string {
+	if r.Mode == "handoff" {
 		// leading statements that do not touch the receiver (plain declarations) are allowed before the Lock
 		start := -1
-		for i, st := range fd.Body.List {
+		for i, st := range list {
 			if es, ok := st.(*ast.ExprStmt); ok && isCall(es.X, recv, r.Lock, "Lock") {
 				start = i
 				break
@@ -109,7 +323,7 @@ func check(fd *ast.FuncDecl, recv string, r rule) string {
 			return "no " + recv + "." + r.Lock + ".Lock() statement"
 		}
 		bad := ""
-		for _, st := range fd.Body.List[start+1:] {
+		for _, st := range list[start+1:] {
 			ast.Inspect(st, func(n ast.Node) bool {
 				if e, ok := n.(ast.Expr); ok && (isCall(e, recv, r.Lock, "Unlock") || isCall(e, recv, r.Lock, "Lock")) {
 					bad = "the mutex is released or re-taken inside the body (the critical section must be handed to the callee unbroken)"
@@ -128,7 +342,7 @@ func check(fd *ast.FuncDecl, recv string, r rule) string {
 	default:
 		pairs = append(pairs, [2]string{"Lock", "Unlock"}, [2]string{"RLock", "RUnlock"})
 	}
-	first, ok := fd.Body.List[0].(*ast.ExprStmt)
+	first, ok := list[0].(*ast.ExprStmt)
 	if !ok {
 		return "first statement is not a lock call"
 	}
@@ -137,17 +351,17 @@ func check(fd *ast.FuncDecl, recv string, r rule) string {
 			continue
 		}
 		// form 1: defer unlock as second statement
-		if len(fd.Body.List) >= 2 {
-			if d, ok := fd.Body.List[1].(*ast.DeferStmt); ok && isCall(d.Call, recv, r.Lock, p[1]) {
+		if len(list) >= 2 {
+			if d, ok := list[1].(*ast.DeferStmt); ok && isCall(d.Call, recv, r.Lock, p[1]) {
 				return ""
 			}
 		}
 		// form 2: bracket; the matching unlock must be a top-level statement, nothing escapes in between,
 		// and nothing but a return of plain values follows it
-		for i := 1; i < len(fd.Body.List); i++ {
-			if es, ok := fd.Body.List[i].(*ast.ExprStmt); ok && isCall(es.X, recv, r.Lock, p[1]) {
+		for i := 1; i < len(list); i++ {
+			if es, ok := list[i].(*ast.ExprStmt); ok && isCall(es.X, recv, r.Lock, p[1]) {
 				bad := ""
-				for _, st := range fd.Body.List[1:i] {
+				for _, st := range list[1:i] {
 					ast.Inspect(st, func(n ast.Node) bool {
 						switch n.(type) {
 						case *ast.ReturnStmt:
@@ -162,7 +376,7 @@ func check(fd *ast.FuncDecl, recv string, r rule) string {
 						return true
 					})
 				}
-				for _, st := range fd.Body.List[i+1:] {
+				for _, st := range list[i+1:] {
 					if _, ok := st.(*ast.ReturnStmt); !ok {
 						// allow trailing statements that do not touch the receiver
 						touches := false
@@ -213,6 +427,7 @@ func main() {
 			except[m] = true
 		}
 		seen := map[string]bool{}
+		tc := buildCtx(filepath.Dir(r.File), r.Recv)
 		for _, d := range f.Decls {
 			fd, ok := d.(*ast.FuncDecl)
 			if !ok {
@@ -231,7 +446,7 @@ func main() {
 			}
 			seen[name] = true
 			checked++
-			if msg := check(fd, rn, r); msg != "" {
+			if msg := check(fd, rn, r, tc); msg != "" {
 				failures = append(failures, fmt.Sprintf("%s: (%s).%s: %s", strings.TrimPrefix(r.File, "/repo/"), r.Recv, name, msg))
 			}
 		}
